@@ -172,8 +172,9 @@ def decodeInfo (s : Slice α) : Outcome (Info × Slice α) :=
       (decodeAddr s).bind fun (src, s) => (decodeAddr s).bind fun (dest, s) =>
       (readUint 64 s).bind fun (lt, s) => (readUint 32 s).bind fun (at_, s) => .ok (.extOut src dest lt at_, s)
 
-/-- the fields of Message.UnmarshalTLB after the hash capture: info, init, body -/
-def decodeMsg (st : Store α) (s : Slice α) : Outcome (Msg α) :=
+/-- the fields of Message.UnmarshalTLB after the hash capture (info, init, body), together with the read position it leaves in the message cell: after the body bit when the body is in
+a reference; BEFORE the body when it is inline (`Any.UnmarshalTLB` = CopyRemaining, which restores the cursors) -/
+def decodeMsgS (st : Store α) (s : Slice α) : Outcome (Msg α × Slice α) :=
   (decodeInfo s).bind fun (info, s) =>
   (readBit s).bind fun (hasInit, s) =>
   (if !hasInit then .ok (InitForm.absent, s)
@@ -182,11 +183,15 @@ def decodeMsg (st : Store α) (s : Slice α) : Outcome (Msg α) :=
      else (decodeStateInit s).bind fun (si, s) => .ok (InitForm.inline si, s)).bind fun (init, s) =>
   (readBit s).bind fun (bodyRef, s) =>
   if bodyRef then
-    (nextRef s).bind fun (r, _) =>
+    (nextRef s).bind fun (r, s') =>
       match st.sliceOf r with
-      | some b => .ok ⟨info, init, true, b⟩
+      | some b => .ok (⟨info, init, true, b⟩, s')
       | none => .err "bad reference"
-  else .ok ⟨info, init, false, s⟩
+  else .ok (⟨info, init, false, s⟩, s)
+
+/-- the fields alone -/
+def decodeMsg (st : Store α) (s : Slice α) : Outcome (Msg α) :=
+  (decodeMsgS st s).bind fun (m, _) => .ok m
 
 /-! ## the normalised hash -/
 
